@@ -31,7 +31,18 @@ def run_spec(spec: dict) -> list[dict]:
         tree = DemeTree(cfg)
         rec.tree = tree
         rec.emit({"e": "start", "cfg": cfg_summary(spec), "snap": rec.snap(tree, full=True)})
-        tree.run()
+        drive = spec.get("drive") or ["run"]
+        if drive[0] == "run":
+            tree.run()
+        elif drive[0] == "steps":            # the caller steps the tree itself and never asks the global condition
+            for _ in range(int(drive[1])):
+                tree.run_step()
+        elif drive[0] == "run+steps":        # the caller goes on stepping after run() has returned
+            tree.run()
+            for _ in range(int(drive[1])):
+                tree.run_step()
+        else:
+            raise ValueError(drive)
         rec.emit({"e": "end", "snap": rec.snap(tree, full=True)})
     except TooManyConsults as ex:
         status, info = "stalled", str(ex)
